@@ -44,16 +44,18 @@ def strip_chars(doc, chars):
     return "".join(c for c in doc if c not in chars)
 
 
-def oracle(ctx, trig, n_docs):
+def oracle(ctx, trig, n_docs, per_rule={}):
     import mistune
     from mistune.directives import FencedDirective, RSTDirective, Admonition, TableOfContents, Image, Figure, Include
     n = 0
     plugins = sorted(trig)
     for _ in range(n_docs):
-        P = ctx.rng.choice(plugins + ["fenced", "rst"])
+        P = ctx.rng.choice(plugins + ["fenced", "rst", "speedup"])
         others = [p for p in configs.PLUGINS if p != P]
         base = ctx.rng.sample(others, ctx.rng.randint(0, len(others)))
         pos = ctx.rng.randint(0, len(base))
+        if P == "speedup":
+            pos = len(base)          # speedup has no trigger characters at all; the claim is for speedup registered last (C09)
         hw = ctx.rng.random() < 0.25
         esc = ctx.rng.random() < 0.5
 
@@ -64,8 +66,16 @@ def oracle(ctx, trig, n_docs):
                 return RSTDirective([Admonition(), TableOfContents(), Image(), Figure(), Include()])
             return name
         withp = base[:pos] + [P] + base[pos:]
-        chars = trig.get(P) or set(EXTRA_TRIGGERS[P])
-        doc = strip_chars(gen.md_any(ctx.rng, 8), chars)
+        if P in per_rule and ctx.rng.random() < 0.7:
+            # the theorem needs only ONE needed character per rule to be absent: remove a random hitting set
+            chars = set(EXTRA_TRIGGERS.get(P, ""))
+            for rn, cs in per_rule[P].items():
+                cand = [c for c in cs if c not in "\n "]
+                if cand:
+                    chars.add(ctx.rng.choice(cand))
+        else:
+            chars = trig.get(P) or set(EXTRA_TRIGGERS[P])
+        doc = strip_chars(gen.md_nested(ctx.rng) if ctx.rng.random() < 0.25 else gen.md_any(ctx.rng, 8), chars)
         if P == "rst":
             doc = doc.replace("..", "")
         try:
@@ -101,10 +111,10 @@ def run(ctx):
         for rn, cs in rules.items():
             if not cs and rn not in ("text", "paragraph"):
                 ctx.broken.append("plugin %s rule %s has no needed character (trigger set not computable)" % (p, rn))
-    n = oracle(ctx, trig, 4000 if ctx.quick() else 60000)
+    n = oracle(ctx, trig, 6000 if ctx.quick() else 80000, per_rule)
     if ctx.broken and not ctx.failures:
         ctx.notes.append("search mode entered")
-        n += oracle(ctx, trig, 40000)
+        n += oracle(ctx, trig, 40000, per_rule)
     ctx.cov.update({
         "evaluations": n, "distinct_nontrivial": n,
         "rule": "for a random plugin P (or directive syntax), a random subset/order of the other plugins and a random insertion position: a seeded Markdown document with "
